@@ -657,8 +657,14 @@ def rule_bcd(ctx) -> None:
         f = norm(c.func)
         if f in ("BcdVersion3._num_from_str", "cls._num_from_str") and len(c.args) == 1:
             return ("NUM", ev.ev(c.args[0]))
-        if f in ("BcdVersion3", "cls") and not c.keywords:
-            return ("BCD",) + tuple(ev.ev(a) for a in c.args)
+        if f in ("BcdVersion3", "cls") and all(k.arg for k in c.keywords):
+            # positional or keyword arguments: bound to the constructor's own parameter order
+            pn = ctx.own(SBMISC, "BcdVersion3", "__init__").params()[1:]
+            bound = {pn[i]: ev.ev(a) for i, a in enumerate(c.args) if i < len(pn)}
+            bound.update({k.arg: ev.ev(k.value) for k in c.keywords})
+            if len(c.args) > len(pn) or set(bound) - set(pn):
+                return ordereval.NOT_MODELLED
+            return ("BCD",) + tuple(bound.get(n_) for n_ in pn if n_ in bound)
         return ordereval.NOT_MODELLED
     probs = []
     for text in ("7", "1.2", "1.2.3", "a.b.c.d", "10.0.99"):
